@@ -4,23 +4,29 @@ go 1.26.8
 
 require (
 	github.com/anishathalye/porcupine v1.3.0
+	github.com/golang/snappy v0.0.1
 	github.com/samaritan-proxy/samaritan v0.0.0
 	github.com/tevino/log v0.0.0-20191011110715-a95875091fd9
+	google.golang.org/grpc v1.23.1
 )
 
 require (
 	github.com/envoyproxy/protoc-gen-validate v0.1.0 // indirect
+	github.com/ghodss/yaml v1.0.0 // indirect
 	github.com/gogo/protobuf v1.3.0 // indirect
 	github.com/golang/mock v1.3.1 // indirect
 	github.com/golang/protobuf v1.3.2 // indirect
-	github.com/golang/snappy v0.0.1 // indirect
 	github.com/kavu/go_reuseport v1.4.0 // indirect
 	github.com/kirk91/stats v0.0.5-0.20191121064423-8a4d70fadb55 // indirect
 	github.com/pkg/errors v0.8.1 // indirect
 	github.com/samaritan-proxy/circonusllhist v0.1.4-0.20191028071046-9512360317cd // indirect
 	github.com/tevino/tcp-shaker v0.0.0-20190306083616-9f5b7a96d888 // indirect
 	go.uber.org/atomic v1.4.0 // indirect
+	golang.org/x/net v0.0.0-20190311183353-d8887717615a // indirect
 	golang.org/x/sys v0.0.0-20190907184412-d223b2b6db03 // indirect
+	golang.org/x/text v0.3.0 // indirect
+	google.golang.org/genproto v0.0.0-20180817151627-c66870c02cf8 // indirect
+	gopkg.in/yaml.v2 v2.2.2 // indirect
 )
 
 replace github.com/samaritan-proxy/samaritan => /repo
